@@ -32,7 +32,7 @@ NumClasses == {
   [name |-> "negbigint", exp |-> 1330,  isint |-> TRUE],
   [name |-> "int5000d",  exp |-> 16609, isint |-> TRUE] }    \* 10**5000: beyond the str-digits limit
 StrClasses == {"empty", "nul", "paren", "bracket", "smiley", "backslash", "long", "astral",
-               "combining", "surrogate", "newline", "percent_s", "brace", "digits30", "uuid_braced"}
+               "combining", "surrogate", "newline", "percent_s", "brace", "digits30", "uuid_braced", "digits2", "aa"}
 ShapeClasses == {"list_of", "dict_of", "deep_list", "deep_dict", "dict_unusual_key", "mixed_unhashable"}
 
 (* multipleOf arguments: [name, exp, isfloat] *)
@@ -68,12 +68,14 @@ SchemaAtoms == {"multipleOf", "type_number", "type_integer", "minimum", "maximum
                 "items_number", "contains_const", "additionalProperties_false", "object_class",
                 (* patterns that are valid one by one but cannot be joined into one expression *)
                 "patterns_inline_flag", "patterns_same_group",
+                (* constructs of Python's regex dialect beyond the plain family of Draft6.tla *)
+                "pattern_neg_lookbehind", "pattern_lookahead", "pattern_backreference",
                 (* finite, acyclic schemas nested beyond the interpreter's recursion budget:   *)
                 (* parsing must end in an error of the schema-parse family, not RecursionError *)
                 "deep_items", "deep_not", "deep_anyOf", "deep_properties", "deep_additional",
                 "deep_dependencies", "deep_within_budget"}
 NameClasses == {"nul", "del", "private_use", "surrogate", "paren", "space", "superscript", "empty",
-                "combining", "keyword", "dunder"}
+                "combining", "keyword", "dunder", "dunder_custom", "dunder_only"}
 
 (***************************************************************************)
 (* Verdicts Draft 6 prescribes for the numeric extremes (reference facts;   *)
